@@ -123,9 +123,34 @@ fn ID_roundtrip(x: ID) {
     let r = ID_parse(v);
     assert(r is Ok && r->Ok_0.0@ == x.0@);
 }''', 'ID round-trip lemma')
+    # Char: a string with exactly one Unicode scalar value
+    CH = 'src/types/external/char.rs'
+    u.trusted('''
+// <char as Into<String>>::into: the one-character string (std, assumed)
+#[verifier::external_body]
+pub fn char_to_string(c: char) -> (r: String) ensures r@ == seq![c] { unimplemented!() }
+impl InputValueError { pub fn custom_str() -> InputValueError { InputValueError { message: verif_msg() } } }''', 'char -> String shim')
+    u.extract_fn(CH, ['impl ScalarType for char', 'fn parse'], name='char_parse', label=CH + '::impl ScalarType for char::fn parse',
+                 sig_rewrites=[ReSub(r'InputValueResult<Self>', 'InputValueResult<char>')],
+                 rewrites=COMMON + [CallSub('InputValueError::custom', 'InputValueError::custom_str()', rule='R-msg', count=2)],
+                 ensures=['match r { Ok(c) => value is String && value->String_0@ == seq![c], Err(_) => !(value is String && value->String_0@.len() == 1) }   // exactly one scalar value, nothing else'])
+    u.extract_fn(CH, ['impl ScalarType for char', 'fn to_value'], name='char_to_value', label=CH + '::impl ScalarType for char::fn to_value',
+                 sig_rewrites=[ReSub(r'&self', 'this: &char')], rewrites=[Sub('(*self).into()', 'char_to_string(*this)', rule='R-from')],
+                 ensures=['r is String && r->String_0@ == seq![*this]'])
+    u.spec('''
+fn char_roundtrip(x: char) {
+    let v = char_to_value(&x);
+    let ghost body = v->String_0@;
+    let r = char_parse(v);
+    assert(body.len() == 1 && body[0] == x);
+    assert(r is Ok);
+    assert(seq![r->Ok_0][0] == body[0]);
+    assert(r->Ok_0 == x);
+}''', 'char round-trip lemma')
     u.search_case('bool.rs', 'c07_simple')
     u.search_case('string.rs', 'c07_simple')
     u.search_case('id.rs', 'c07_simple')
+    u.search_case('char.rs', 'c07_simple')
     return u
 
 
